@@ -18,16 +18,29 @@ THEOREMS = ["C11_replay_invariant", "C11_rebuilt_wellformed", "C11_log_grows_onl
             "C11_log_is_reduced_ticks", "C11_drain_records_what_it_reduces", "C11_source_shape"]
 LEAN_TARGETS = ["WfProps.C11"]
 EXPLANATION = (
-    "Runner LTS: at every point of every run (any schedule, results, external ticks) the live reducer state equals "
-    "the replay of the logged (tick, time) pairs from the rewound initial state; the log grows by exactly the processed "
-    "tick in drain and by nothing else; the rebuilt state satisfies the slot invariant. Tie: runner correspondence. "
-    "Search (this is where the real rebuild_state_from_ticks, which replays with the *current* clock, is exercised): "
-    "after every tick of every generated run the state rebuilt by the real function from the adapter's tick log is "
-    "compared with the live state, timestamps erased; ctx.to_dict() snapshots are compared with the live state."
+    "Runner LTS, recorded times: at every point of every run (any start state, schedule, results, external ticks) the live reducer "
+    "state equals the replay of the logged (tick, time) pairs from the rewound initial state; over whole histories the log is exactly "
+    "the sequence of ticks popped off the buffer and reduced (each once, in order, nothing recorded for a raising reduction); the rebuilt "
+    "state satisfies the slot invariant. Timestamps aside (the real rebuild_state_from_ticks replays at the clock of the call): for every "
+    "start state incl. resumed ones, every schedule and every pair of clocks the rebuild does not raise and equals the live state after "
+    "blanking every first_attempt_at (eraseSt), for retry policies that do not read the elapsed time; reducer, rewind and serialisation "
+    "commute with the erasure; running_steps() and to_dict() of the rebuilt state describe the live run (and list the step of every live "
+    "worker task); sessions of any number of resume legs; what rewind-on-start keeps and that it is not idempotent (idempotent when no "
+    "step has more than one worker). Without the guard the clause is refuted by a concrete run (stop_after_delay). Source shape: the "
+    "recording order of _process_tick, the writers of self.state, the shape of rebuild_state_from_ticks, on_tick/replay/init_state of "
+    "plugins/basic.py and _state/running_steps/to_dict of external_context.py are re-extracted on every run. Tie: reducer pairs, runner "
+    "correspondence (incl. the adapter's tick log), and the real ExternalContext over prefixes of each recorded log at chosen clocks "
+    "against the model's replayTicks/activeSteps/roundtrip. Search: after every tick of every generated run the state rebuilt by the real "
+    "function from the adapter's tick log is compared with the live state, timestamps erased; ctx.to_dict() snapshots and, at sampled "
+    "prefixes, running_steps()/to_dict() of the real ExternalContext are compared with the live state."
 )
 ASSUMPTIONS = suite.ENGINE_ASSUMPTIONS + [
-    "replay with a different clock equals the live state only 'timestamps aside' and only for policies that do not depend on elapsed time: "
-    "stated as C11_time_erasure_statement, not proved; generated policies are attempt-based",
+    "replay with a different clock equals the live state only 'timestamps aside' and only for policies that do not depend on elapsed time "
+    "(TimeFree): proved under that guard (C11_rebuild_agrees_with_live), refuted without it (C11_refuted_elapsed_time_policy, reproduced on "
+    "the real code: to_dict() of a run that failed through stop_after_delay says is_running=True); generated policies of the monitored "
+    "streams are attempt-based, the elapsed-time family is compared with the model only",
+    "what a caller of the live handler saw after the k-th tick is reproduced after the run through an adapter that shows the real "
+    "ExternalContext the first k ticks of the recorded log (the log is append-only: GenTickLog.ticksWrites)",
 ]
 
 
@@ -46,12 +59,14 @@ def _views(env: Env, out: Outcome, traces: list, label: str, rng, monitor: bool 
             continue
         states = rebuild.live_states(tr)
         end = int(getattr(tr, "end_time", 0) or 1000)
-        if env.tier == "thorough" or env.replay is not None:
+        if env.replay is not None:
+            ks = rebuild.pick_prefixes(rng, len(ticks), 1)
+        elif rng.random() >= 0.34:
+            ks = []  # every third run is looked at (the per-tick rebuild of mon_c11 looks at all of them)
+        elif env.tier == "thorough":
             ks = rebuild.pick_prefixes(rng, len(ticks), 1)  # the whole log and one prefix of it
-        elif rng.random() < 0.34:
-            ks = [len(ticks) if rng.random() < 0.5 else rng.randint(0, len(ticks))]  # quick: every third run, one point
         else:
-            ks = []
+            ks = [len(ticks) if rng.random() < 0.5 else rng.randint(0, len(ticks))]  # quick: one point
         want = ((env.replay or {}).get("payload", {}).get("case") or {})
         if isinstance(want, dict) and isinstance(want.get("resume", want).get("prefix"), int):
             ks = sorted(set(ks) | {min(want.get("resume", want)["prefix"], len(ticks))})
@@ -168,7 +183,8 @@ def _resumed_runs(env: Env, out: Outcome, n: int) -> None:
 def run(env: Env) -> Outcome:
     out = Outcome()
     out.rule = ("live scripted workflows incl. snapshots; after every processed tick the real rebuild_state_from_ticks is compared with the live state; "
-                "non-trivial = more than 2 ticks; distinct by (spec, schedule)")
+                "non-trivial = more than 2 ticks; distinct by (spec, schedule); views: the real ExternalContext over a prefix of the recorded log at a "
+                "chosen clock, non-trivial = a proper prefix or something in progress, distinct by (spec, schedule, prefix, clock)")
     suite.direct_corr(env, out, env.budget(1500, 30000))
     def attempt_based(spec: dict, rng) -> dict:
         for st in spec["steps"]:
